@@ -5,4 +5,8 @@ def classify(sig, what):
         return 'Y2: generate spec renders YAML by parsing its JSON output as YAML (marshalToYAMLFormat: yaml.Unmarshal on JSON bytes); YAML limits implicit keys to 1024 characters, so a document with a very long key (4 KB property name) makes --output x.yml fail while JSON output works.'
     if 'scalar=num-2^63' in sig:
         return 'Y3: a number >= 2^63 passes through float64 and is written to YAML as the integer literal 9223372036854776000, which the toolkit loader (swag YAML -> JSON conversion) refuses as a scalar; the JSON output loads. Root cause in the yaml/swag number handling (dependency) reached through marshalToYAMLFormat.'
+    if sig.startswith('panic mixin-keep-spec-order') and 'scalar=long' in sig:
+        return 'Y4: --keep-spec-order pre-processes the mixed-in file with generator.WithAutoXOrder, which parses it (also when it is JSON) with yaml.v2 and panics on any error (generator/spec.go: panic(err)); a 4 KB key exceeds YAML\'s 1024-character limit for implicit keys, so `swagger mixin --keep-spec-order` crashes on a JSON document that every other command accepts.'
+    if 'mixin-keep-spec-order' in sig and 'scalar=trailing-nl' in sig:
+        return 'Y5: --keep-spec-order rewrites the mixed-in file through yaml.v2 (WithAutoXOrder writes a temporary YAML file); a string value ending in a newline, given in a YAML input as a block scalar, loses the trailing newline on the way ("a\\n" becomes "a"), while the JSON rendering of the same input keeps it.'
     return None
